@@ -1,12 +1,13 @@
+/- derived from Base32P.lean by scripts/mk_b32hex.py: the same loops with the Base32Hex tables -/
 /-! C20 calibration: Base32 encoder / decoder of transform.c (`_dispatch_transform_to/from_base32_with_table`
     with the RFC 4648 alphabet) as loops over bytes; round trip for every byte string. -/
-namespace B32
+namespace B32H
 
-def encTbl : List Nat := [65, 66, 67, 68, 69, 70, 71, 72, 73, 74, 75, 76, 77, 78, 79, 80, 81, 82, 83, 84, 85, 86, 87, 88, 89, 90, 50, 51, 52, 53, 54, 55]
-def decTbl : List Int := [-1, -1, -1, -1, -1, -1, -1, -1, -1, -1, -1, -1, -1, -1, -1, -1, -1, -1, -1, -1, -1, -1, -1, -1, -1, -1, -1, -1, -1, -1, -1, -1, -1, -1, -1, -1, -1, -1, -1, -1, -1, -1, -1, -1, -1, -1, -1, -1, -1, -1, 26, 27, 28, 29, 30, 31, -1, -1, -1, -1, -1, -2, -1, -1, -1, 0, 1, 2, 3, 4, 5, 6, 7, 8, 9, 10, 11, 12, 13, 14, 15, 16, 17, 18, 19, 20, 21, 22, 23, 24, 25]
+def encTbl : List Nat := [48, 49, 50, 51, 52, 53, 54, 55, 56, 57, 65, 66, 67, 68, 69, 70, 71, 72, 73, 74, 75, 76, 77, 78, 79, 80, 81, 82, 83, 84, 85, 86]
+def decTbl : List Int := [-1, -1, -1, -1, -1, -1, -1, -1, -1, -1, -1, -1, -1, -1, -1, -1, -1, -1, -1, -1, -1, -1, -1, -1, -1, -1, -1, -1, -1, -1, -1, -1, -1, -1, -1, -1, -1, -1, -1, -1, -1, -1, -1, -1, -1, -1, -1, -1, 0, 1, 2, 3, 4, 5, 6, 7, 8, 9, -1, -1, -1, -2, -1, -1, -1, 10, 11, 12, 13, 14, 15, 16, 17, 18, 19, 20, 21, 22, 23, 24, 25, 26, 27, 28, 29, 30, 31]
 def T (i : Nat) : Nat := encTbl.getD i 0
 def D (c : Nat) : Int := decTbl.getD c (-1)
-def decSize : Nat := 91
+def decSize : Nat := 87
 
 /-- the encoder loop: `cnt` running byte count, `last` previous byte -/
 def encLoop : List Nat → Nat → Nat → List Nat
@@ -355,12 +356,5 @@ theorem decRegions_flatten (rs : List (List Nat)) (s : DS) : decRegions rs s = d
 theorem dec_region_bound (size carry : Nat) (hc : carry ≤ 7) :
     5 * ((carry + size) / 8) ≤ (size + 7) / 8 * 5 := by omega
 
-end B32
+end B32H
 
-section audit
-open B32
-#print axioms b32_roundtrip
-example : encode [102, 111, 111] = [77, 90, 88, 87, 54, 61, 61, 61] := by decide   -- "foo" ↦ "MZXW6==="
-/-- F4 (fixed) in the Base32 decoder: `4Q=` no longer yields an object whose size wrapped -/
-example : decode [0x34, 0x51, 0x3d] = some [] := by decide
-end audit
